@@ -15,21 +15,45 @@ def lr(f=0,df=(),s=0,ds=0,q=0,qi=''):
 schema=[
  ('schema-diff:str:sfmt:dropped', spec('fa','str',sfmt=hx('email'))),
  ('schema-diff:array:str:sfmt:dropped', spec('fa','str',arr='1',sfmt=hx('email'))),
- ('schema-diff:str:kind:str->key[id62-pattern]', spec('fa','str',r='1',pat=hx(ID62))),
  ('schema-diff:array:str:kind:str->key[id62-pattern]', spec('fa','str',arr='1',r='1',pat=hx(ID62))),
  ('schema-diff:array:key:kind:key->str[kf=]', spec('fa','key',arr='1')),
  ('schema-diff:array:key:kind:key->str[kf=inf]', spec('fa','key',arr='1',kf='inf')),
  ('schema-diff:array:key:kind:key->str[kf=cus]', spec('fa','key',arr='1',kf='cus',pat=hx('^abc$'))),
- ('reader-error:key[kf=cus,id62-pattern,lr]', spec('fa','key',kf='cus',pat=hx(ID62),lr=lr(f=1))),
- ('reader-error:str[id62-pattern,lr,rules]', spec('fa','str',r='1',pat=hx(ID62),lr=lr(q=1))),
  ('reader-error:array:str[id62-pattern,lr,rules]', spec('fa','str',arr='1',r='1',pat=hx(ID62),lr=lr(q=1))),
  ('schema-diff:array:key:kf:cus->inf[kf=cus]', spec('fa','key',arr='1',kf='cus',pat=hx('^abc$'),lr=lr(f=1))),
  ('schema-diff:array:date:rules:dropped', spec('fa','date',arr='1',r='1',dmin=hx('2020-01-02'))),
  ('schema-diff:array:dec:rules:dropped', spec('fa','dec',arr='1',r='1',dmin=hx('0.5'))),
  ('reader-error:array:key[kf=cus,id62-pattern,lr]', spec('fa','key',arr='1',kf='cus',pat=hx(ID62),lr=lr(f=1))),
 ]
+schema+=[
+ ('reader-error:array:any', spec('fa','any',arr='1')),
+ ('reader-error:map:any', spec('fa','any',arr='m')),
+ ('schema-diff:map:key:kind:key->str[kf=]', spec('fa','key',arr='m')),
+ ('schema-diff:map:key:kind:key->str[kf=inf]', spec('fa','key',arr='m',kf='inf')),
+ ('schema-diff:map:key:kind:key->str[kf=cus]', spec('fa','key',arr='m',kf='cus',pat=hx('^abc$'))),
+ ('schema-diff:map:str:kind:str->key[id62-pattern]', spec('fa','str',arr='m',r='1',pat=hx(ID62))),
+ ('schema-diff:map:str:sfmt:dropped', spec('fa','str',arr='m',sfmt=hx('email'))),
+ ('schema-diff:map:date:rules:dropped', spec('fa','date',arr='m',r='1',dmin=hx('2020-01-02'))),
+ ('schema-diff:map:dec:rules:dropped', spec('fa','dec',arr='m',r='1',dmin=hx('0.5'))),
+ ('schema-diff:map:value-list-rules:dropped', spec('fa','bool',arr='m',lr=lr(f=1))),
+]
+# witnesses of FIXED findings: must pass the oracle now; a regression shows up on every run
+schema+=[
+ ('fixed b1eebc1 schema-diff:str:kind:str->key[id62-pattern]', spec('fa','str',r='1',pat=hx(ID62))),
+ ('fixed b1eebc1 reader-error:key[kf=cus,id62-pattern,lr]', spec('fa','key',kf='cus',pat=hx(ID62),lr=lr(f=1))),
+ ('fixed b1eebc1 reader-error:str[id62-pattern,lr,rules]', spec('fa','str',r='1',pat=hx(ID62),lr=lr(q=1))),
+ ('fixed b1eebc1 (by reading) date pattern on a string', spec('fa','str',r='1',pat=hx('^\\d{4}-\\d{2}-\\d{2}$'))),
+ ('fixed b6c593a enum default filters must be options', spec('fa','enum',eopts=hx('ALPHA')+','+hx('BETA'),lr=lr(f=1,df=('ALPHA','E_FA_BETA')))),
+ ('fixed b6c593a (inadmissible neighbour)', spec('fa','enum',eopts=hx('ALPHA')+','+hx('BETA'),lr=lr(f=1,df=('alpha',)))),
+ ('fixed c0f36ba optional', spec('fa','str',opt='1',r='1',minl='1')),
+ ('fixed d9448b1 map rules / value rules / singleForm', spec('fa','str',arr='m',ar='1',amin='1',amax='3',asf=hx('thing'),r='1',minl='2')),
+ ('fixed ff3022c required map', spec('fa','str',arr='m',req='1')),
+]
 rules=[
  ('array-unique-on-message-items', spec('fa','obj',arr='1',ar='1',auniq='1')+' | ~ [] [P] [P,P]'),
+ ('fixed c0f36ba optional-field-without-presence', spec('fa','str',opt='1',r='1',minl='1')+' | ~ - 61'),
+ ('fixed b6c593a enum default filter', spec('fa','enum',eopts=hx('ALPHA'),lr=lr(f=1,df=('nope',)))+' | ~ 0 1 2'),
+ ('fixed d9448b1 map value rules', spec('fa','str',arr='m',ar='1',amin='1',amax='2',r='1',minl='2')+' | ~ [] [61] [6162] [6162,616263] [6162,616263,61626364] [6162,61]'),
 ]
 which=sys.argv[1]
 if which=='schema':
